@@ -300,8 +300,14 @@ class Dimension:
         symbol: Optional[str] = None,
     ) -> "Dimension":
         key = exponents
-        if key in cls._known:
-            return cls._known[key]
+        existing = cls._known.get(key)
+        if name and cls._by_name.get(name, existing) is not existing:
+            raise ValueError(f"A dimension named {name} is already defined")
+
+        if existing is not None:
+            if name and existing.name and existing.name != name:
+                raise ValueError(f"{existing!r} is already named {existing.name}")
+            return existing
 
         self = super().__new__(cls)
         self._initialized = False
@@ -315,6 +321,11 @@ class Dimension:
         symbol: Optional[str] = None,
     ) -> None:
         if self._initialized:
+            if name and not self.name:
+                # created anonymously before it was declared: adopt the declaration
+                self.name = name
+                self.symbol = symbol or self.symbol
+                self._by_name[name] = self
             return
 
         self.exponents = exponents
@@ -934,6 +945,8 @@ class Unit:
             return cls._known[key]
 
         if name and name in cls._by_name:
+            if factors:
+                raise ValueError(f"A unit named {name} is already defined")
             return cls._by_name[name]
 
         self = super().__new__(cls)
@@ -952,6 +965,11 @@ class Unit:
         symbol: Optional[str] = None,
     ) -> None:
         if self._initialized:
+            # interned earlier (possibly anonymously): a declared name or symbol still binds
+            name = None if name in self.names else name
+            symbol = None if symbol in self.symbols else symbol
+            if name or symbol:
+                self.alias(name=name, symbol=symbol)
             return
 
         self.prefix = prefix
